@@ -69,10 +69,11 @@ def dataarray(X, dask, chunk_rows=None):
     return xr.DataArray(arr, dims=("sample", "feature"), coords={"sample": np.arange(n), "feature": np.arange(p)})
 
 
-def patterns(P, first="feature"):
+def patterns(P, first="feature", start=0):
+    """patterns (feature x mode); in PC space the feature coordinate carries the mode labels 1..k"""
     import xarray as xr
     a, m = P.shape
-    return xr.DataArray(P, dims=(first, "mode"), coords={first: np.arange(a), "mode": np.arange(1, m + 1)})
+    return xr.DataArray(P, dims=(first, "mode"), coords={first: np.arange(start, start + a), "mode": np.arange(1, m + 1)})
 
 
 def val(da, *dims):
@@ -134,7 +135,7 @@ def run_pca(X, n_modes, solver, irr, dask, P, Qfun):
     Xt = pca.transform(D)
     Xb = pca.inverse_transform_data(Xt)
     Pt = pca.transform_components(patterns(P))
-    Qb = pca.inverse_transform_components(patterns(Q))
+    Qb = pca.inverse_transform_components(patterns(Q, start=1))
     Qbt = pca.transform_components(Qb)
     return dict(V=V, k=k, Q=Q, Xt=val(Xt, "sample", "feature"), Xb=val(Xb, "sample", "feature"), Pt=val(Pt, "feature", "mode"),
                 Qb=val(Qb, "feature", "mode"), Qbt=val(Qbt, "feature", "mode"))
@@ -168,48 +169,53 @@ def whitener_oracles(ctx, cfg, X, P, Y, rec):
     if lam.min() <= 0:
         ctx.dist["skipped:numerically-singular-covariance"] += 1
         return False
-    if (lam <= EPS).any():
-        ndrop = int((lam <= EPS).sum())
-        ctx.violation(KEY_CUTOFF,
-                      "%s: X has full column rank (cond %.1e) but %d of %d covariance eigenvalues (min %.3g, max %.3g) are <= eps = 2.2e-16 in absolute "
-                      "terms and are discarded by _fractional_matrix_power: un-whitening error %.3g (relative), whitened covariance has rank %d instead of %d"
-                      % (desc, np.sqrt(lam.max() / lam.min()), ndrop, p, lam.min(), lam.max(), relerr(rec["Xb"], X),
-                         int(np.linalg.matrix_rank(rec["Xw"])), p), rp)
-        return True
+    fails = []
+    viol = lambda key, what, _rp: fails.append((key, what))  # noqa
     condC = float(lam.max() / lam.min())
     T, Ti = rec["T"], rec["Tinv"]
     I = np.eye(p)
     if relerr(T.conj().T, T) > 1e-10:
-        ctx.violation("C16:Whitener:T-hermitian" + sfx, desc + ": T is not Hermitian (relative %.3g)" % relerr(T.conj().T, T), rp)
+        viol("C16:Whitener:T-hermitian" + sfx, desc + ": T is not Hermitian (relative %.3g)" % relerr(T.conj().T, T), rp)
     if relerr(Ti.conj().T, Ti) > max(1e-9, 16 * EPS * condC ** ((1 - alpha) / 2)):
-        ctx.violation("C16:Whitener:Tinv-hermitian" + sfx, desc + ": Tinv is not Hermitian (relative %.3g)" % relerr(Ti.conj().T, Ti), rp)
+        viol("C16:Whitener:Tinv-hermitian" + sfx, desc + ": Tinv is not Hermitian (relative %.3g)" % relerr(Ti.conj().T, Ti), rp)
     e1, e2 = float(np.abs(T @ Ti - I).max()), float(np.abs(Ti @ T - I).max())
     if not (max(e1, e2) <= RT):
-        ctx.violation("C16:Whitener:T-Tinv" + sfx, desc + ": T Tinv - I = %.3g, Tinv T - I = %.3g" % (e1, e2), rp)
+        viol("C16:Whitener:T-Tinv" + sfx, desc + ": T Tinv - I = %.3g, Tinv T - I = %.3g" % (e1, e2), rp)
     # T is C^((alpha-1)/2)
     Tm = (V * lam ** ((alpha - 1) / 2)) @ V.conj().T
     tolT = max(RT, 16 * EPS * condC)
     if not (relerr(T, Tm) <= tolT):
-        ctx.violation("C16:Whitener:T-value:alpha=%g%s" % (alpha, sfx), desc + ": T differs from C^((alpha-1)/2) by %.3g (relative, tolerance %.1e)" % (relerr(T, Tm), tolT), rp)
+        viol("C16:Whitener:T-value:alpha=%g%s" % (alpha, sfx), desc + ": T differs from C^((alpha-1)/2) by %.3g (relative, tolerance %.1e)" % (relerr(T, Tm), tolT), rp)
     # covariance of the whitened data is C^alpha
     Xw = rec["Xw"]
     Cw = Xw.conj().T @ Xw / n
     Ca = (V * lam ** alpha) @ V.conj().T if alpha != 0 else I.astype(Cm.dtype)
     tolC = max(RT, 16 * EPS * condC ** (1 - alpha))
     if not (relerr(Cw, Ca) <= tolC):
-        ctx.violation("C16:whitened-cov:alpha=%g%s" % (alpha, sfx), desc + ": covariance of the whitened data differs from C^alpha by %.3g (relative, tolerance %.1e)"
+        viol("C16:whitened-cov:alpha=%g%s" % (alpha, sfx), desc + ": covariance of the whitened data differs from C^alpha by %.3g (relative, tolerance %.1e)"
                       % (relerr(Cw, Ca), tolC), rp)
     if not (relerr(rec["Xb"], X) <= RT):
-        ctx.violation("C16:unwhiten" + sfx, desc + ": inverse_transform_data(transform(X)) differs from X by %.3g (relative)" % relerr(rec["Xb"], X), rp)
+        viol("C16:unwhiten" + sfx, desc + ": inverse_transform_data(transform(X)) differs from X by %.3g (relative)" % relerr(rec["Xb"], X), rp)
     if Y is not None and not (relerr(rec["Yb"], Y) <= RT):
-        ctx.violation("C16:unwhiten:new-data" + sfx, desc + ": inverse_transform_data(transform(Y)) differs from Y by %.3g (relative)" % relerr(rec["Yb"], Y), rp)
+        viol("C16:unwhiten:new-data" + sfx, desc + ": inverse_transform_data(transform(Y)) differs from Y by %.3g (relative)" % relerr(rec["Yb"], Y), rp)
     if not (relerr(rec["Pb"], P) <= RT):
-        ctx.violation("C16:components-roundtrip" + sfx, desc + ": inverse_transform_components(transform_components(P)) differs from P by %.3g" % relerr(rec["Pb"], P), rp)
+        viol("C16:components-roundtrip" + sfx, desc + ": inverse_transform_components(transform_components(P)) differs from P by %.3g" % relerr(rec["Pb"], P), rp)
     if not (relerr(rec["Pib"], P) <= RT):
-        ctx.violation("C16:components-roundtrip:inverse-first" + sfx, desc + ": transform_components(inverse_transform_components(P)) differs from P by %.3g" % relerr(rec["Pib"], P), rp)
+        viol("C16:components-roundtrip:inverse-first" + sfx, desc + ": transform_components(inverse_transform_components(P)) differs from P by %.3g" % relerr(rec["Pib"], P), rp)
     # the pattern map is the conjugate transpose of the data map, not its inverse: P -> T^H P
     if not (relerr(rec["Pw"], T.conj().T @ P) <= 1e-9):
-        ctx.violation("C16:transform_components:operand" + sfx, desc + ": transform_components(P) is not T^H P", rp)
+        viol("C16:transform_components:operand" + sfx, desc + ": transform_components(P) is not T^H P", rp)
+    ndrop = int((lam <= EPS).sum())
+    if fails and ndrop and int(np.linalg.matrix_rank(T)) < p:
+        # one root cause: the absolute cut-off of _fractional_matrix_power discarded eigenvalues of a full-rank covariance matrix
+        ctx.violation(KEY_CUTOFF,
+                      "%s: X has full column rank (cond %.1e) but %d of %d covariance eigenvalues (min %.3g, max %.3g) are <= eps = 2.2e-16 in absolute "
+                      "terms and are discarded by _fractional_matrix_power: rank(T) = %d, un-whitening error %.3g (relative); failing: %s"
+                      % (desc, np.sqrt(lam.max() / lam.min()), ndrop, p, lam.min(), lam.max(), int(np.linalg.matrix_rank(T)), relerr(rec["Xb"], X),
+                         ", ".join(k for k, _ in fails)), rp)
+    else:
+        for key, what in fails:
+            ctx.violation(key, what, rp)
     return True
 
 
@@ -269,6 +275,20 @@ def pca_oracles(ctx, cfg, X, P, rec):
         ctx.violation("C16:PCA:data-roundtrip" + sfx, desc + ": all modes kept but inverse_transform_data(transform(X)) differs from X by %.3g" % relerr(rec["Xb"], X), rp)
 
 
+def whitener_error(ctx, e, X, P, Y, alpha, dask, cond, scale):
+    """an exception from fit / the maps: a consequence of the cut-off when eigenvalues were discarded (the dask inverse of the
+    resulting singular T raises at compute time, outside the try/except of the kernel), otherwise its own violation"""
+    n, p = X.shape
+    rp = dict(kind="whitener", X=X, P=P, Y=Y, alpha=alpha, dask=dask, cond=cond, scale=scale)
+    lam = spectrum_of_cov(X)[1]
+    if alpha != 1.0 and (lam <= EPS).any():
+        ctx.violation(KEY_CUTOFF, "Whitener(alpha=%g) on %dx%d, cond(X)=%.0e, scale=%.0e%s: X has full column rank but %d of %d covariance eigenvalues are <= eps in "
+                      "absolute terms and are discarded by _fractional_matrix_power; the maps then raise %r" % (alpha, n, p, cond, scale, " [dask]" if dask else "",
+                                                                                                           int((lam <= EPS).sum()), p, e), rp)
+    else:
+        ctx.violation("C16:error:Whitener:%s%s" % (C.errkind(e), ":dask" if dask else ""), "Whitener(alpha=%g) on %dx%d%s raised %r" % (alpha, n, p, " [dask]" if dask else "", e), rp)
+
+
 # ---------------------------------------------------------------- oracle runs
 def run_whitener_oracles(ctx, rng, N):
     conds = [1.0, 1e1, 1e2, 1e3, 1e4, 1e5, 1e6]
@@ -292,8 +312,7 @@ def run_whitener_oracles(ctx, rng, N):
             rec = run_whitener(X, alpha, dask, P, Y)
         except Exception as e:
             ctx.case(("c16w", i, n, p, cplx, dask, alpha, cond, scale), nontrivial=True, tag=tag)
-            ctx.violation("C16:error:Whitener:%s%s" % (C.errkind(e), ":dask" if dask else ""), "Whitener(alpha=%g) on %dx%d raised %r" % (alpha, n, p, e),
-                          dict(kind="whitener", X=X, P=P, Y=Y, alpha=alpha, dask=dask, cond=cond, scale=scale))
+            whitener_error(ctx, e, X, P, Y, alpha, dask, cond, scale)
             continue
         made = whitener_oracles(ctx, cfg, X, P, Y, rec)
         ctx.case(("c16w", C.canon_hash(C.jsonable(X)), alpha, dask), nontrivial=bool(made), tag=tag,
@@ -361,7 +380,10 @@ def wh_case(rng, i):
     X = gen_matrix(rng, n, p, cond, cplx, scale)
     m = int(rng.integers(1, 4))
     P = rnd(rng, p, m, cplx)
-    rec = run_whitener(X, alpha, dask, P)
+    try:
+        rec = run_whitener(X, alpha, dask, P)
+    except Exception as e:
+        return dict(error=e, X=X, P=P, alpha=alpha, dask=dask, cond=cond, scale=scale)
     Cm, lam, V = spectrum_of_cov(X)
     if lam.min() <= 0 or np.any((lam > EPS / 8) & (lam < EPS * 8)):
         return None
@@ -419,6 +441,10 @@ def run_correspondence(ctx):
         if r is None:
             ctx.dist["case-skipped:eigenvalue-near-cut-off"] += 1
             continue
+        if "error" in r:
+            ctx.case(("c16wc-error", i), nontrivial=True, tag="case/whitener/error")
+            whitener_error(ctx, r["error"], r["X"], r["P"], None, r["alpha"], r["dask"], r["cond"], r["scale"])
+            continue
         ctx.case(("c16wc", i, r["n"], r["p"], r["alpha"], r["cplx"], r["dask"], r["cond"], r["scale"]), nontrivial=True,
                  tag="case/whitener/%s/alpha=%g%s" % ("complex" if r["cplx"] else "real", r["alpha"], "/cut-off" if r["dropped"] else ""),
                  sample=dict(kind="whitener-correspondence", shape=[r["n"], r["p"]], alpha=r["alpha"], complex=r["cplx"], dask=r["dask"], cond=r["cond"], scale=r["scale"]))
@@ -462,9 +488,9 @@ def run_correspondence(ctx):
                 if (8 in flds) != r["dropped"]:
                     nbad += 1
                     ctx.notes.append("cut-off premise: model says %s, generator says %s (alpha=%g)" % (8 in flds, r["dropped"], r["alpha"]))
-                if r["dropped"] and not r["isid"]:
+                if 8 in flds and 10 not in flds and not r["isid"] and relerr(r["Xb"], r["X"]) > RT:
                     ctx.violation(KEY_CUTOFF, "Whitener(alpha=%g) on %dx%d (cond %.0e, scale %.0e): full column rank, but covariance eigenvalues <= eps are discarded "
-                                  "(premise whiten_keep of C16_unwhiten fails in the model as in the implementation)" % (r["alpha"], r["n"], r["p"], r["cond"], r["scale"]),
+                                  "(premise whiten_keep of C16_unwhiten fails; the implementation's T equals the model's truncated T and un-whitening does not restore X)" % (r["alpha"], r["n"], r["p"], r["cond"], r["scale"]),
                                   dict(kind="whitener", X=r["X"], P=r["P"], Y=None, alpha=r["alpha"], dask=r["dask"], cond=r["cond"], scale=r["scale"]))
                 flds = [x for x in flds if x != 8]
             for fld in flds:
@@ -483,11 +509,10 @@ def run(ctx):
     C.setup_impl_env()
     C.clean_case_files("C16")
     rng = ctx.rng.child("c16").np
-    nv0 = len(ctx.violations) + len(ctx.known_hits)
     run_whitener_oracles(ctx, rng, ctx.n(140, 2400))
     run_pca_oracles(ctx, rng, ctx.n(80, 1200))
-    ctx.oblige("oracle:whitening and PCA invariants on the implementation", "oracle",
-               not [v for v in ctx.violations if v["key"] != KEY_CUTOFF], "see violations")
+    ctx.oblige("oracle:whitening and PCA invariants on the implementation", "oracle", not ctx.violations,
+               "; ".join(v["key"] for v in ctx.violations))
     if ctx.extra.get("model_ok", True):
         run_correspondence(ctx)
 
@@ -511,7 +536,9 @@ def replay(ctx, rp):
         try:
             rec = run_whitener(X, r["alpha"], r["dask"], P, Y)
         except Exception as e:
-            ctx.violation(rp["key"], "Whitener raised %r" % (e,), r)
+            whitener_error(ctx, e, X, P, Y, r["alpha"], r["dask"], r.get("cond") or 0, r.get("scale") or 1)
+            for v in ctx.violations:
+                print("  still violated:", v["key"], "--", v["what"][:300])
             return
         whitener_oracles(ctx, dict(alpha=r["alpha"], dask=r["dask"], cond=r.get("cond") or 0, scale=r.get("scale") or 1), X, P, Y, rec)
     else:
